@@ -24,9 +24,23 @@ def main() -> int:
         env = dict(os.environ, PYTHONHASHSEED="0", PYTHONDONTWRITEBYTECODE="1")
         os.execve(sys.executable, [sys.executable, "-m", "sim.cli"] + sys.argv[1:], env)
 
+    import atexit
     import json
     import logging
-    logging.disable(logging.CRITICAL)  # antismash logs errors on rejected operations; they are expected here
+    import shutil
+    import tempfile
+    logging.disable(logging.CRITICAL)
+    # every top-level invocation works in its own scratch root outside /repo and /verif, removed on exit
+    # (the same root is inherited by all worker and child processes, so paths that end up in outputs agree)
+    if "VERIF_SCRATCH" not in os.environ:
+        scratch = tempfile.mkdtemp(prefix="verif_scratch_", dir=os.environ.get("TMPDIR", "/tmp"))
+        os.environ["VERIF_SCRATCH"] = scratch
+        owner = os.getpid()
+
+        def _cleanup() -> None:
+            if os.getpid() == owner:
+                shutil.rmtree(scratch, ignore_errors=True)
+        atexit.register(_cleanup)  # antismash logs errors on rejected operations; they are expected here
     from sim.core import runner
     from sim import engines
 
